@@ -126,6 +126,8 @@ type cstate struct {
 	ignored int64
 	events  int64
 	ownRes  map[int]string // request n -> result of the explicit SendResponse of its own reply
+	// request n -> sentinel error the answering process sent as the reply (mode serr)
+	ownSentinel map[int]error
 }
 
 // own records the result of sending the own reply to request n
@@ -134,6 +136,8 @@ func (cs *cstate) own(n int, err error) {
 	cs.ownRes[n] = resText(err)
 	cs.mu.Unlock()
 }
+
+var sentinels = []error{gen.ErrProcessTerminated, gen.ErrProcessMailboxFull, gen.ErrProcessUnknown, gen.ErrTimeout}
 
 type sender interface {
 	SendResponse(to gen.PID, ref gen.Ref, message any) error
@@ -278,6 +282,15 @@ func (b *book) serve(s sender, callee int, from gen.PID, ref gen.Ref, r Req, can
 		return nil, nil
 	case "err":
 		cs.own(r.N, s.SendResponseError(from, ref, tagErr(b.mkRep(r.Caller, r.N, callee, "own-err"))))
+		return nil, nil
+	case "serr":
+		// one of the framework's own sentinel errors as the error the callee produced for this request
+		e := sentinels[(r.Caller+r.N)%len(sentinels)]
+		cs.mu.Lock()
+		cs.ownSentinel[r.N] = e
+		cs.events++
+		cs.mu.Unlock()
+		cs.own(r.N, s.SendResponseError(from, ref, e))
 		return nil, nil
 	case "dup":
 		cs.own(r.N, s.SendResponse(from, ref, b.mkRep(r.Caller, r.N, callee, "own")))
@@ -734,7 +747,7 @@ func runRound(rc roundCfg) {
 			return
 		}
 		callerPids = append(callerPids, pid)
-		b.callers = append(b.callers, &cstate{id: c, pid: pid, seen: map[int]int{}, window: map[int]int64{}, ownRes: map[int]string{}})
+		b.callers = append(b.callers, &cstate{id: c, pid: pid, seen: map[int]int{}, window: map[int]int64{}, ownRes: map[int]string{}, ownSentinel: map[int]error{}})
 	}
 
 	// scripts
@@ -789,7 +802,7 @@ func runRound(rc roundCfg) {
 				}
 				t = target{to: pid, text: fmt.Sprintf("%s:mortal%d", t.kind, id), kind: t.kind, remote: t.remote}
 			default:
-				r.Mode = []string{"imm", "imm", "dup", "err"}[rng.Intn(4)]
+				r.Mode = []string{"imm", "imm", "dup", "err", "serr"}[rng.Intn(5)]
 				r.Via = []string{"sync", "async", "third"}[rng.Intn(3)]
 				r.Flush = []int{0, 0, 1, 2, 4}[rng.Intn(5)]
 				if s == bigPos {
@@ -802,7 +815,7 @@ func runRound(rc roundCfg) {
 					r.Flush = 1 + rng.Intn(3) // the late reply of the timed-out request arrives while this one waits
 				}
 			}
-			if t.meta && (r.Mode == "dup" || r.Mode == "err" || r.Flush > 0 || r.Foreign) {
+			if t.meta && (r.Mode == "dup" || r.Mode == "err" || r.Mode == "serr" || r.Flush > 0 || r.Foreign) {
 				r.Via = "third"
 			}
 			if t.meta && r.Via == "async" {
@@ -879,7 +892,7 @@ func runRound(rc roundCfg) {
 		timedOut := map[int]bool{}
 		classes := map[string]bool{}
 		nontrivial := false
-		var unexpectedTimeouts, otherTimeouts, returnedOwn int64
+		var unexpectedTimeouts, otherTimeouts, returnedOwn, sentinelOK int64
 		lostOwn := map[int]string{} // unscripted timeouts: what the replier was told when it sent the own reply
 		crowded := map[int]bool{}   // requests whose own reply may be refused: channel crowded by >10 stale replies
 		{
@@ -976,6 +989,14 @@ func runRound(rc roundCfg) {
 				if r, ok := parseTagErr(cl.err); ok {
 					check(r, "error")
 					classes["error-reply"] = true
+				} else if prod := func() error { cs.mu.Lock(); defer cs.mu.Unlock(); return cs.ownSentinel[cl.N] }(); prod != nil && errors.Is(cl.err, prod) {
+					// the very error the answering process produced for this request
+					classes["sentinel-error-reply"] = true
+					returnedOwn++
+					sentinelOK++
+				} else if prod != nil && cl.err != gen.ErrTimeout {
+					setSig("error-reply-altered")
+					viol = append(viol, fmt.Sprintf("request (caller %d, n %d) to %s: the answering process replied with the error %q (SendResponseError), the Call returned the different error %q", c, cl.N, cl.To, prod, cl.err))
 				} else if cl.err == gen.ErrTimeout {
 					timedOut[cl.N] = true
 					if !strings.HasPrefix(cl.Mode, "late") && !strings.HasPrefix(cl.Mode, "die/") {
@@ -1022,6 +1043,7 @@ func runRound(rc roundCfg) {
 		hk.Stat("calls_returned", int64(len(sc.Log)))
 		hk.Stat("calls_returned_own_reply", returnedOwn)
 		hk.Stat("timeouts_not_scripted", unexpectedTimeouts)
+		hk.Stat("sentinel_error_replies_returned_unaltered", sentinelOK)
 		hk.Stat("timeouts_not_scripted_and_channel_not_crowded", otherTimeouts)
 		for _, v := range lostOwn {
 			switch v {
@@ -1099,7 +1121,7 @@ func runRound(rc roundCfg) {
 
 func main() {
 	hk.InstallHook()
-	hk.Rule("rounds: 64 concurrent caller processes x seeded scripts of sequential Calls to shared callees (kinds: pid, registered name incl. split handlers, meta alias, act.Pool of 2 and 3 instrumented workers which terminate now and then so that later requests take the pool's respawn branch (presentations are counted across all workers), remote pid/name/alias across a second node, in the remote and mixed rounds callers live on both nodes; reply by HandleCall return value, SendResponse from the callee later, from a third process, twice, as error, never (1 s timeout), callee terminating). Before its own reply the answering process re-sends replies made for EARLIER requests of the same caller (incl. the timed-out ones), replies with another caller's ref, and the reply to another process, each alternately as value (SendResponse) and as tagged error (SendResponseError); a third process sprays 4..15 stale replies at the idle caller (channel capacity 10). One case = one caller script. Non-trivial iff at least one Call returned its own reply although >=1 stale reply, whose SendResponse returned nil, preceded that reply in the caller's FIFO response channel (sent by the answering process before the own reply, or accepted while the caller was idle, or a duplicate queued behind the previous own reply; for remote callees: sent without error on the same order-preserving connection). Distinct = round kind x target kinds used x observed classes (late reply of a timed-out request while waiting, >10 stale, foreign ref, dup, error reply, callee terminated, ignored at replier, third, async). Scenario W: ref-wrap history, non-trivial iff the later request really carried the same ref as the timed-out one. Scenario X: reply with a ref minted by another node, non-trivial iff the two outstanding requests really carried refs with equal ids minted by different nodes.")
+	hk.Rule("rounds: 64 concurrent caller processes x seeded scripts of sequential Calls to shared callees (kinds: pid, registered name incl. split handlers, meta alias, act.Pool of 2 and 3 instrumented workers which terminate now and then so that later requests take the pool's respawn branch (presentations are counted across all workers), remote pid/name/alias across a second node, in the remote and mixed rounds callers live on both nodes; reply by HandleCall return value, SendResponse from the callee later, from a third process, twice, as tagged error, as one of the framework's sentinel errors (ErrProcessTerminated/MailboxFull/Unknown/Timeout via SendResponseError; the Call must return errors.Is-equal or time out), never (1 s timeout), callee terminating). Before its own reply the answering process re-sends replies made for EARLIER requests of the same caller (incl. the timed-out ones), replies with another caller's ref, and the reply to another process, each alternately as value (SendResponse) and as tagged error (SendResponseError); a third process sprays 4..15 stale replies at the idle caller (channel capacity 10). One case = one caller script. Non-trivial iff at least one Call returned its own reply although >=1 stale reply, whose SendResponse returned nil, preceded that reply in the caller's FIFO response channel (sent by the answering process before the own reply, or accepted while the caller was idle, or a duplicate queued behind the previous own reply; for remote callees: sent without error on the same order-preserving connection). Distinct = round kind x target kinds used x observed classes (late reply of a timed-out request while waiting, >10 stale, foreign ref, dup, error reply, callee terminated, ignored at replier, third, async). Scenario W: ref-wrap history, non-trivial iff the later request really carried the same ref as the timed-out one. Scenario I: remote Calls with the important-delivery flag to an unknown pid/name, a terminated pid and a full mailbox must return the error a caller on the callee's node gets for the same target (or time out), non-trivial iff that error came back. Scenario X: reply with a ref minted by another node, non-trivial iff the two outstanding requests really carried refs with equal ids minted by different nodes.")
 	hk.Assume("the harness callees are the only repliers; reply identity (caller,n,callee,no) is carried in the payload")
 	hk.Assume("a caller process issues its Calls sequentially (a process can have one outstanding Call), so every ticket of an earlier request is stale by construction")
 	for _, v := range []any{Req{}, Rep{}, Fwd{}, Spray{}} {
@@ -1134,6 +1156,7 @@ func main() {
 			runRound(roundCfg{id: fmt.Sprintf("R%d-%s", k, kind), kind: kind, callers: 64, steps: hk.Pick(10, 14), stress: k%2 == 1})
 		}
 	}
+	runImportant()
 	runXNode() // before W: W moves node A's reference counter far ahead of node B's
 	runWrap()
 
